@@ -200,7 +200,7 @@ Proof.
     pose proof (st_insert_mask a m av ent v (se_cx e) Hma) as Hmask.
     pose proof (st_insert_pair a a av ent v (se_cx e) (se_cx e) (srel_refl a m Hma)) as Y.
     destruct (st_insert a av ent v (se_cx e)) as [[a1 r] c1]. cbn [fst] in Hmask. destruct Y as [_ [[_ [m1 [H1 _]]] _]].
-    assert (EInv (env_put e s a1 (match r with InsErr _ => cx_fail c1 | _ => c1 end))) as HE' by (apply EInv_put; eauto).
+    assert (EInv (env_put e s a1 (match r with InsErr _ => cx_fail c1 | InsOld t => cx_drop c1 t | _ => c1 end))) as HE' by (apply EInv_put; eauto).
     destruct (IH _ av ent HE' sid ms' i Hf Hm) as [[ms [F1 F2]]|F]; [|right; exact F].
     cbn [env_put se_stores] in F1. rewrite find_add in F1. destruct (N.eq_dec s sid) as [->|Hne].
     + inversion F1; subst ms. destruct (Hmask i F2) as [G|G]; [left; eauto | right; exact G].
